@@ -83,7 +83,7 @@ func (dist *ParetoDistribution) ScalarType() ScalarType {
 }
 
 func (dist *ParetoDistribution) LogPdf(r Scalar, x ConstScalar) error {
-  if x.GetFloat64() < 0 {
+  if x.GetFloat64() < dist.Lambda.GetFloat64() {
     r.SetFloat64(math.Inf(-1))
     return nil
   }
@@ -105,7 +105,7 @@ func (dist *ParetoDistribution) Pdf(r Scalar, x ConstScalar) error {
 }
 
 func (dist *ParetoDistribution) LogCdf(r Scalar, x ConstScalar) error {
-  if x.GetFloat64() < 0 {
+  if x.GetFloat64() < dist.Lambda.GetFloat64() {
     r.SetFloat64(math.Inf(-1))
     return nil
   }
